@@ -107,10 +107,34 @@ theorem C20_old_agrees (t : Target) (op : AOp) (h : oldDecision t op ≠ .crash)
   | field => rfl
   | nonVar => rfl
 
+mutual
+theorem recordPat_eq (m : Bool) : (p : Pat) → recordPat m p = (binders p).map (fun id => (id, m))
+  | .wild => rfl
+  | .bind id => rfl
+  | .tuple es => by simp only [recordPat, binders]; exact recordPats_eq m es
+  | .variant ds => by simp only [recordPat, binders]; exact recordPats_eq m ds
+  | .struct fs => by simp only [recordPat, binders]; exact recordPats_eq m fs
+  | .or l r => by simp only [recordPat, binders, List.map_append, recordPat_eq m l, recordPat_eq m r]
+
+theorem recordPats_eq (m : Bool) : (ps : List Pat) → recordPats m ps = (bindersList ps).map (fun id => (id, m))
+  | [] => rfl
+  | p :: ps => by simp only [recordPats, bindersList, List.map_append, recordPat_eq m p, recordPats_eq m ps]
+end
+
+/-- `let` / `var` reaches every binding of the pattern, however deep (tuple, variant payload, named
+    fields, struct pattern, both sides of an or-pattern): exactly the pattern's bindings are
+    recorded, each with the statement's flag — so every name bound by a `let` pattern is immutable
+    and every name bound by a `var` pattern is assignable. -/
+theorem C20_pat_mutability (isMutable : Bool) (p : Pat) :
+    recordPat isMutable p = (binders p).map (fun id => (id, isMutable)) :=
+  recordPat_eq isMutable p
+
 /-! ### non-vacuity -/
 example : oldDecision (.name .letB true) .add ≠ .crash := by decide
 example : run [7, 10, 9] [] (assignCode .sub 1 3) = .ok [7, 7, 9] [] := by rfl
 example : run [7, 10, 9] [] (assignCode .div 1 0) = .err .divZero := by rfl
 example : (1 : Nat) < [7, 10, 9].length := by decide
+example : recordPat false (.tuple [.variant [.bind 1, .wild], .or (.bind 2) (.bind 2), .struct [.bind 3]]) =
+    [(1, false), (2, false), (2, false), (3, false)] := by decide
 
 end Abra.Assign
